@@ -216,6 +216,15 @@ class Atomizer:
                 if a[0].op == "const" and a[1].op == "const" and a[0].val != 0:
                     self.axioms.append(T.lt(T.ZERO, q))
             return q
+        if op == "floordiv":
+            k = self.sqrt_vars.get(t.id)
+            if k is None:
+                ki = T.var("k!t%d" % t.id, "Int")
+                k = T._mk("toreal", (ki,), None, "Real")
+                self.sqrt_vars[t.id] = k
+                m = T.const(t.val)
+                self.axioms += [T.le(T.mul(m, k), a[0]), T.lt(a[0], T.add(T.mul(m, k), m))]
+            return k
         if op == "quot":
             w = self.sqrt_vars.get(t.id)
             if w is None:
@@ -327,14 +336,33 @@ class Atomizer:
         for k, v in model.items():
             if "!" not in k:
                 env[k] = v
+        # a variable used as an angle / hyperbolic argument takes the value its atoms encode (the goal depends on the
+        # atoms; the plain occurrence is only tied to them at zero, by sign and by equalities)
+        plain0 = dict(env)
+        owned = set()
+
+        def assign(name, value):
+            # variables the model makes equal as plain reals (path conditions such as p1 == p2) stay equal
+            old = plain0.get(name)
+            env[name] = value
+            owned.add(name)
+            if old is not None:
+                for other, ov in plain0.items():
+                    if other != name and other not in owned and ov == old and isinstance(ov, float):
+                        env[other] = value
         for i, (c, s) in self.trig_vars.items():
             b = self.base_terms.get(i)
-            if b is not None and b.op == "var" and b.val not in env and c.val in model and s.val in model:
-                env[b.val] = self.trigL.get(i, 1) * math.atan2(model[s.val], model[c.val])
+            if b is not None and b.op == "var" and c.val in model and s.val in model:
+                L = self.trigL.get(i, 1)
+                ang = L * math.atan2(model[s.val], model[c.val])
+                plain = plain0.get(b.val)
+                if abs(ang) < 1e-12 and plain is not None and abs(plain) > 1e-9:
+                    ang = 2 * math.pi * L * (1 if plain > 0 else -1)
+                assign(b.val, ang)
         for i, (ch, sh) in self.hyp_vars.items():
             b = self.base_terms.get(i)
-            if b is not None and b.op == "var" and b.val not in env and sh.val in model:
-                env[b.val] = self.hypL.get(i, 1) * math.asinh(model[sh.val])
+            if b is not None and b.op == "var" and sh.val in model:
+                assign(b.val, self.hypL.get(i, 1) * math.asinh(model[sh.val]))
         return env
 
 
